@@ -81,7 +81,7 @@ func main() {
 		Assumptions: []string{
 			"commands are issued one at a time, so the history is sequential and the model exact; a session's sequence numbers are interpreted against the view the server has announced on that connection",
 			"latitude granted: a stale session addressing an already removed message gets it skipped; UID SEARCH may or may not report messages not yet announced; BODY[n.MIME]/HEADER/TEXT combinations RFC 3501 leaves undefined, and malformed messages, are only required not to crash; LIST may add \\Noselect/\\NonExistent placeholders for missing parents; SUBSCRIBE of a missing mailbox may be refused or accepted; COPY onto the selected mailbox may be refused; partial numbers above 2^32-1 may be answered BAD",
-			"not generated: DELETE of a mailbox that a session has selected, RENAME of INBOX or of a mailbox with inferiors, state-changing commands under EXAMINE (the server documents read-only enforcement as not implemented)",
+			"not generated: DELETE of a mailbox that a session has selected, RENAME of INBOX, RENAME whose new inferior names would collide with existing mailboxes, state-changing commands under EXAMINE (the server documents read-only enforcement as not implemented)",
 		},
 		Replay:     replay,
 		RaceFrames: []string{"imapserver.", "imapmemserver.", "imapwire."},
